@@ -121,7 +121,9 @@ def main(argv=None):
         scan_obs += scan()
     all_obs = obligations + lemma_obs + scan_obs
     t_gen = time.time() - t_start
-    discharge(all_obs)
+    kf_pats = [re.compile(k["obligation"]) for k in load_known_findings()
+               if k.get("property") == pid and k.get("kind", "finding") == "finding"]
+    discharge(all_obs, low_budget=lambda nm: any(p.search(nm) for p in kf_pats))
     t_solve = time.time() - t_start - t_gen
 
     # ---------------------------------------------------------------- classify
@@ -211,8 +213,11 @@ def main(argv=None):
                 f.write("\n".join(names) + "\n")
         violations = names
         lines.append(f"VIOLATION property={pid} replay={replay_path}{tail}")
+        how = {}
+        for ob in remaining:
+            how.setdefault(ob.name, set()).add("refuted by " + ob.backend if ob.status == "failed" else "not discharged by any back end within its resource budget")
         for nm in names[:12]:
-            lines.append(f"  failed obligation: {nm}")
+            lines.append(f"  failed obligation: {nm}  [{'; '.join(sorted(how.get(nm, {'bounded layer'})))}]")
 
     # ---------------------------------------------------------------- evidence
     by_backend = {}
